@@ -442,10 +442,10 @@ def strategy():
                         bumps.append([ch, x + draw(st.integers(-2, 2)), y + draw(st.integers(-2, 2)), amp, draw(st.sampled_from([1.0, 1.5]))])
             frames.append({"bumps": bumps, "noise": draw(st.sampled_from([0.0, 0.01, 0.05])), "noise_seed": draw(st.integers(0, 10**6))})
             meta.append([draw(st.integers(0, 50)) * 10 + f, draw(st.integers(0, 2)), draw(st.sampled_from([1.0, 0.5, 0.8]))])
-        batch = draw(st.lists(st.integers(0, n_frames - 1), min_size=1 if draw(st.integers(0, 5)) == 0 else 2, max_size=4))
+        batch = draw(st.lists(st.integers(0, n_frames - 1), min_size=1 if draw(st.integers(0, 5)) == 0 else 2, max_size=6))
         edge_ratio = 2.0
         if model == "bottomup" and draw(st.booleans()):
-            # long batches of small frames (more frames than PAF rows/columns) with the default distance-penalty ratio:
+            # long batches of small frames (more frames than PAF rows/columns) with a small distance-penalty ratio:
             # whatever is derived from tensor shapes must not pick up the batch dimension
             edge_ratio = 0.25
             batch = draw(st.lists(st.integers(0, n_frames - 1), min_size=14, max_size=22))
